@@ -12,3 +12,16 @@ check('C09', 'proof',
       'layout metamorphosis are bounded runs.',
       'contract-based deductive verification (pyvc: VCs from the real AST, z3) + bounded stand-in for the API-level statement',
       '3/C09')
+check('C01', 'proof',
+      'Proved for all inputs (no bound) on the real functions: the CST algebra (cst.py), names dict (ast.py), frame stack (state.py), '
+      'the runtime primitives (token/pattern/void/fail/eof/dot/empty/cut/expcall/isolate/repeat/closure/statescope/option/optional/if_/ifnot_) and the '
+      'model nodes Optional/Choice/Group/SkipGroup/Lookahead/NegativeLookahead/Named/NamedList/Override against the documented clause of each '
+      'construct, stated through the generic PARSE contract. The composed statement parse == documented semantics is a bounded run (never counted as proved).',
+      'Trusted: pyvc, z3, the built-in model, PARSE determinism, regex engine (uninterpreted), contracts marked verify=False (listed in evidence).',
+      'contract-based deductive verification (pyvc) + bounded oracle comparison as stand-in for the composed statement', '3/C01')
+check('C05', 'proof',
+      'Proved for all inputs: cut sets the flag on the top frame only; push/new start with no cut; merge/pop/undo never copy the flag downwards; '
+      'Choice/Optional/option()/optional() re-raise iff the frame the body ran in has the flag; isolate keeps the flag of a failed iteration visible '
+      'and repeat commits the repetition (the clause of docs/syntax.rst on closures).',
+      'Trusted: pyvc, z3, PARSE generic contract for sub-expressions. The whole-grammar statement is a bounded run.',
+      'contract-based deductive verification (pyvc) + bounded oracle comparison', '3/C05')
